@@ -1,6 +1,7 @@
 (* C09 — subsets and cross-sections are faithful restrictions. Statements only. *)
 From Coq Require Import Sorting.Sorted Permutation.
 From Verif Require Import Base C02 C02_sup C09 C09_proofs C09_commute_proofs C09_edges C09_edge_table_proofs C03 C09_C03_proofs C09_edge_data_proofs C02_check C02_check_proofs C09_subset_std_proofs.
+From Verif Require Import C09_efd C09_efd_proofs C09_efd_repo C09_efd_repo_proofs.
 
 (* face k of the subset is source face idx[k]: reading its row back through the recorded node
    indices gives the source row (same corners, same cyclic order and start, same padding) *)
@@ -140,3 +141,27 @@ Theorem C09_subset_meets_C02 : forall m T idx, std_table m T ->
   C02_spec S (edges S) (face_edges S m) (n_nodes_per_face S).
 Proof. exact subset_meets_C02. Qed.
 Print Assumptions C09_subset_meets_C02.
+
+(* ---- centre-to-centre distances carried over by a subset (slice.py as it is now: Gen/C09_efd_repo.v) ---- *)
+(* whatever the source had computed before slicing, the table the subset reports for an edge is what the subset derives on
+   its own from the faces it kept: the source's value when both faces of the edge were selected, zero when the selection
+   left it a single face.  Depends on the current source through the regenerated definition c09_efd_repo. *)
+Theorem C09_efd_repo_verdict : forall dist sel l, (length l <= 2)%nat ->
+  c09_efd_repo dist sel l = c09_efd_derived dist (c09_efd_kept sel l).
+Proof. exact efd_repo_verdict. Qed.
+Print Assumptions C09_efd_repo_verdict.
+
+Theorem C09_efd_boundary_zero : forall dist sel l, (length (filter sel l) < 2)%nat -> c09_efd_carried dist sel l = 0%Z.
+Proof. exact efd_boundary_zero. Qed.
+Print Assumptions C09_efd_boundary_zero.
+
+Theorem C09_efd_interior_kept : forall dist sel a b, sel a = true -> sel b = true ->
+  c09_efd_carried dist sel [a; b] = dist a b.
+Proof. exact efd_interior_kept. Qed.
+Print Assumptions C09_efd_interior_kept.
+
+(* the code before fix 91b2cd46 (table sliced along n_edge, nothing else): refuted *)
+Theorem C09_efd_before_fix_refuted : exists dist sel l, (length l <= 2)%nat /\
+  c09_efd_carried_old dist l <> c09_efd_derived dist (c09_efd_kept sel l).
+Proof. exact efd_old_refuted. Qed.
+Print Assumptions C09_efd_before_fix_refuted.
